@@ -658,6 +658,10 @@ class Env:
             return merge(c, a, b)
         if t == "call":
             f = node[1]
+            if f[0] == "id" and f[1].split("::")[0] == "InnerToolbox" and f[1].split("::")[1] in ("isnan", "isfinite"):
+                return ("pcall", f[1].split("::")[1], [self.scalar(a) for a in node[2]])
+            if f[0] == "id" and f[1] == "ValueTypeToolbox::isSame":
+                return ("pcall", "isSame", [self.scalar(a) for a in node[2]])
             if f[0] == "id" and f[1].startswith("ValueTypeToolbox::"):
                 return ("call", f[1].split("::")[1], [self.scalar(a) for a in node[2]])
             if f[0] == "member" and f[2] == "value" and not node[2]:
@@ -731,16 +735,20 @@ class Env:
         if t == "for":
             _, var, lo, hi, body = st
             kind, slots = self.loop_range(lo, hi, concrete_ok=True)
-            per = {}
+            per, exits = {}, set()
             for sl in slots:
                 sub = self.child()
                 sub.vars[var] = (kind, sl)
                 r = sub.run_bool(body, lambda: ("cont",))
-                # shape: if (c) return false;  (early exit), otherwise continue
-                if not (r[0] == "bite" and r[2] == ("bool", False) and r[3] == ("cont",)):
-                    raise TranslateError(f"{self.cls.fname}: loop in a boolean function is not `if (c) return false;`")
+                # shape: if (c) return <false|true>;  (early exit), otherwise continue
+                if not (r[0] == "bite" and r[2][0] == "bool" and r[3] == ("cont",)):
+                    raise TranslateError(f"{self.cls.fname}: loop in a boolean function is not `if (c) return false/true;`")
+                exits.add(r[2][1])
                 per[sl] = ("not", r[1])
-            return ("all", per, self.run_bool(rest, cont))
+            if len(exits) != 1:
+                raise TranslateError(f"{self.cls.fname}: loop in a boolean function exits with both truth values")
+            # exit value false: all slots pass && rest;  exit value true: some slot exits || rest
+            return ("all" if not exits.pop() else "nall", per, self.run_bool(rest, cont))
         if t in ("decl", "set", "expr"):
             self.step(st)
             return self.run_bool(rest, cont)
@@ -1212,8 +1220,14 @@ def RB(e, ix, K):
         return f"(!{RB(e[1], ix, K)})"
     if t == "bite":
         return f"(if {RP(e[1], ix)} then {RB(e[2], ix, K)} else {RB(e[3], ix, K)})"
-    if t == "all":
+    if t == "pcall":
+        return "(P." + e[1] + "".join(" " + (x if x[0] == "(" or " " not in x else f"({x})") for x in (R(a, ix) for a in e[2])) + ")"
+    if t in ("all", "nall"):
         per = e[1]
+        if set(per.keys()) == {"i"} and K is None:
+            per = {0: ("bool", True), "i": per["i"]}          # a loop over the derivatives only
+        if t == "nall":
+            return f"((!{RB(('all', per, ('bool', True)), ix, K)}) || {RB(e[2], ix, K)})"
         if set(per.keys()) == {0, "i"}:
             fn = f"fun i => if i.val = 0 then {RB(per[0], ix, K)} else {RB(per['i'], ix, K)}"
             k = "(n + 1)"
@@ -1233,6 +1247,8 @@ def RB(e, ix, K):
 
 
 def RP(e, ix):
+    if e[0] in ("pcall", "not"):
+        return f"{RB(e, ix, None)} = true"
     if e[0] == "ne":
         return f"({R(e[1], ix)} != {R(e[2], ix)}) = true"
     return R(e, ix)
@@ -1430,6 +1446,29 @@ def translate_math(repo, loopcls):
     return out, notes, path
 
 
+def translate_predicates(repo, loopcls):
+    """`MathToolbox<Evaluation>::isSame / isfinite / isnan` (Math.hpp), executed over the abstract slots of the
+    generic class (the struct is one template for all variants; it only uses value(), derivative(i), size())."""
+    src = clean(open(os.path.join(repo, DD, "Math.hpp")).read())
+    S = loopcls.slots
+    out = {}
+    for name, rx, binds in (
+            ("isSame", r"static\s+bool\s+isSame\s*\(\s*const\s+Evaluation\s*&\s*a\s*,\s*const\s+Evaluation\s*&\s*b\s*,\s*Scalar\s+tolerance\s*\)",
+             {"a": ("obj", inputs(S, "a")), "b": ("obj", inputs(S, "b")), "tolerance": ("val", ("sc", "c"))}),
+            ("isfinite", r"static\s+bool\s+isfinite\s*\(\s*const\s+Evaluation\s*&\s*arg\s*\)", {"arg": ("obj", inputs(S, "a"))}),
+            ("isnan", r"static\s+bool\s+isnan\s*\(\s*const\s+Evaluation\s*&\s*arg\s*\)", {"arg": ("obj", inputs(S, "a"))})):
+        body = parse_body(find_function(src, rx, f"Math.hpp: MathToolbox<Evaluation>::{name}"))
+        env = Env(loopcls, None)
+        for k, v in binds.items():
+            env.vars[k] = v
+        out[name] = env.run_bool(body)
+    L = ["/-! ### MathToolbox<Evaluation>::isSame / isfinite / isnan (Math.hpp; `P` = the scalar toolbox predicates) -/\n"]
+    L.append("def M.isSame {n : Nat} (P : Preds α) (a b : Fin (n + 1) → α) (c : α) : Bool :=\n  " + RB(out["isSame"], ix_abstract, None) + "\n")
+    L.append("def M.isfinite {n : Nat} (P : Preds α) (a : Fin (n + 1) → α) : Bool :=\n  " + RB(out["isfinite"], ix_abstract, None) + "\n")
+    L.append("def M.isnan {n : Nat} (P : Preds α) (a : Fin (n + 1) → α) : Bool :=\n  " + RB(out["isnan"], ix_abstract, None) + "\n")
+    return "\n".join(L)
+
+
 # ---------------------------------------------------------------------------------------------
 
 HEADER = """/- GENERATED by translate/densead.py from opm/material/densead/{Evaluation,Evaluation1..12,
@@ -1511,6 +1550,7 @@ def generate(repo):
     for nm, why in mnotes:
         out.append(f"/- NOT TRANSLATABLE M.{nm}: {why} -/\n")
         notes_all.append((f"M.{nm}", why))
+    out.append(translate_predicates(repo, loopcls))
     # createVariable(int nVars, value, varPos) of the statically sized classes
     un = [k for k in extras_all if k.startswith("U")]
     flags = {extras_all[k]["createVariableN"] for k in un}
